@@ -47,8 +47,12 @@ Requests ==
 \* sign pattern of the values at the bracket ends, and their magnitude (1, 1e-170, 1e170, 1e-310): the meaning depends on the signs only
 \* (patterns 9, 10: NaN at one end and an exact zero at the other: NaN ends stop the program)
 \cup {Req("FindRoot", pat, mag, 0, 0, 0) : pat \in 0..10, mag \in 0..3}
-\cup {Req("Method1D", k, 0, 0, 0, 0) : k \in 0..7}
-\cup {Req(ep, k, 0, 0, 0, 0) : ep \in {"Method2D", "Method3D"}, k \in 0..10}
+\* second field 1: the (outermost) integration range is empty, a = b: the value is 0 by definition, but the name is still judged
+\* (Monte Carlo names over a box without volume are left out: that request is outside the quantifier of C14)
+\cup {Req("Method1D", k, e, 0, 0, 0) : k \in 0..7, e \in 0..1}
+\* (third field of Method3D: 0 Cartesian integrand f(x,y,z), 1 spherical integrand f(Vector))
+\cup ({Req("Method2D", k, e, 0, 0, 0) : k \in 0..10, e \in 0..1} \ {Req("Method2D", k, 1, 0, 0, 0) : k \in 6..8})
+\cup ({Req("Method3D", k, e, o, 0, 0) : k \in 0..10, e \in 0..1, o \in 0..1} \ {Req("Method3D", k, 1, o, 0, 0) : k \in 6..8, o \in 0..1})
 \cup {Req("MethodMC", k, 0, 0, 0, 0) : k \in 0..5}
 \cup {Req("GLSize", m, n, 0, 0, 0) : m \in 0..3, n \in 0..3}
 \cup {Req("Binomial", f, p, 0, 0, 0) : f \in 0..1, p \in 0..4}
